@@ -26,6 +26,7 @@ var errCustom = errors.New("custom transport error")
 
 type script struct {
 	items   []bk.ReadItem
+	zeroReads int
 	total   int    // bytes that the reader will have returned when the terminal error comes
 	termErr string // "" if the script has no terminal error (ended by cancellation)
 	desc    []string
@@ -56,10 +57,15 @@ func genScript(rng *rand.Rand, natural bool) script {
 		s.items = append(s.items, it)
 		s.desc = append(s.desc, fmt.Sprint(sz))
 		if rng.IntN(6) == 0 { // run of zero-length reads
-			for k := 0; k < 1+rng.IntN(4); k++ {
-				s.items = append(s.items, bk.ReadItem{})
-				s.desc = append(s.desc, "0")
+			run := 1 + rng.IntN(4)
+			if rng.IntN(4) == 0 { // a reader that often has nothing to say: hundreds of them over the stream's life
+				run = 30 + rng.IntN(120)
 			}
+			for k := 0; k < run; k++ {
+				s.items = append(s.items, bk.ReadItem{})
+			}
+			s.desc = append(s.desc, fmt.Sprintf("0x%d", run))
+			s.zeroReads += run
 		}
 	}
 	if natural {
@@ -233,6 +239,10 @@ func runCase(r *mon.Run, idx int) {
 	r.Count("bytes_displayed", int64(len(shown)))
 	r.Count("chunks_displayed", int64(chunks))
 	r.Count("read_calls_scripted", int64(len(sc.items)))
+	r.Count("zero_length_reads_scripted", int64(sc.zeroReads))
+	if sc.zeroReads >= 100 {
+		r.Count("scripts_with_100_or_more_zero_length_reads", 1)
+	}
 	if natural {
 		r.Count("natural_ends", 1)
 		r.Count("natural_end:"+sc.termErr, 1)
@@ -264,4 +274,5 @@ func Run(r *mon.Run) {
 	r.Floor("bytes_displayed", 100000)
 	r.Floor("natural_ends", 100)
 	r.Floor("cancelled_ends", 30)
+	r.Floor("scripts_with_100_or_more_zero_length_reads", 20)
 }
